@@ -15,7 +15,8 @@ RULE = ('generated programs (diamonds, lines read by several dependants, operand
         '2021-2023 returns (full / deleted keys / prompts / gates) solved under random, reversed and natural schedules; '
         'every stored line is re-evaluated on the final stores. Non-trivial = a solve in which at least one stored line was '
         'attempted twice or more (it waited) ; distinct = hash of (program|return variant, schedule)'
-        ' Also: table-edge returns (taxable income exactly on a Tax Table row edge, a few dollars of qualified dividends), and every stored line evaluated once more in descending and shuffled order after an unrelated return was solved in the same process (definitions have no hidden state).')
+        ' Also: table-edge returns (taxable income exactly on a Tax Table row edge, a few dollars of qualified dividends), and every stored line evaluated once more in descending and shuffled order after an unrelated return was solved in the same process (definitions have no hidden state).'
+        ' Third pass: every stored line evaluated on freshly constructed form objects (state kept in a form object, closure or generator).')
 ASSUMPTIONS = ['re-evaluating a definition on the final stores is the definition\'s value (definitions have no hidden state)']
 KINDS = ['full', 'full', 'delete', 'prompt_total', 'prompt_refuse', 'gates']
 
